@@ -249,9 +249,10 @@ def check_instance(ml, inst, stats=None):
         stats['unresolved'] = True
       return None                    # rounding made a matrix of condition > 1/eps numerically indefinite: cannot be resolved
     return bad(inst, 'spd', 'fit raised %s: %s' % (type(err).__name__, str(err)[:200]), bounds=r.get('bounds'))
-  missing = [k for k in ('_lambda', 'pos_vv', 'neg_vv', 'num_pos', 'pos_bhat', 'neg_bhat', 'A') if k not in fr]
-  if missing or M0 is None:
-    return bad(inst, 'spd', 'solver frame of _fit not observable: missing %s' % missing)
+  if M0 is None or fr.get('y') is None:
+    if stats is not None:
+      stats['skipped'] = 'training pairs of _fit not observable'
+    return None                      # (the parameters pairs / y of _fit could not be observed: nothing to evaluate the clauses against)
   est = r['est']
   y = np.asarray(fr['y'])
   if not ((y == 1).any() and (y == -1).any()):
@@ -259,13 +260,28 @@ def check_instance(ml, inst, stats=None):
       stats['skipped'] = 'single label'
     return None                      # single-label pair set: outside the quantifier
   M = est.get_mahalanobis_matrix()
-  lam = np.asarray(fr['_lambda'], dtype=float)
-  npos = int(fr['num_pos'])
-  V = np.vstack([fr['pos_vv'], fr['neg_vv']])
-  if not np.all(np.einsum('ij,ij->i', V, V) > 0):
-    if stats is not None:
-      stats['skipped'] = 'collapsed pair'
-    return None                      # collapsed pair: outside the quantifier
+  # constraint vectors in the solver's order (similar pairs first): from the solver frame when its local names are the known ones,
+  # otherwise recomputed from the prepared pairs -- the oracle must not depend on how the body names its temporaries
+  P = np.asarray(pairs, dtype=float)
+  pos, neg = P[y == 1], P[y == -1]
+  npos = len(pos)
+  V = np.vstack([pos[:, 0] - pos[:, 1], neg[:, 0] - neg[:, 1]])
+  lam_from_frame = '_lambda' in fr and np.shape(fr['_lambda']) == (len(V),)
+  if lam_from_frame:
+    lam = np.asarray(fr['_lambda'], dtype=float)
+  else:
+    # the dual variables are not observable: recover them as the non-negative solution of
+    #   sum_i y_i lambda_i v_i v_i^T = inv(M) - inv(M0)     (exists and is >= 0 exactly when the clause of the property holds)
+    from scipy.optimize import nnls
+    sg = np.r_[np.ones(npos), -np.ones(len(V) - npos)]
+    Amat = np.stack([(s_ * np.outer(v_, v_)).ravel() for s_, v_ in zip(sg, V)], axis=1)
+    try:
+      rhs = (np.linalg.inv(M) - np.linalg.inv(M0)).ravel()
+      lam, _res = nnls(Amat, rhs, maxiter=50 * Amat.shape[1])
+    except Exception:
+      if stats is not None:
+        stats['unresolved'] = True
+      return None
   sgn = np.r_[np.ones(npos), -np.ones(len(V) - npos)]
   info = dict(bounds_=est.bounds_.tolist(), n_iter_=int(est.n_iter_), lambda_=lam.tolist())
 
@@ -322,6 +338,8 @@ def check_instance(ml, inst, stats=None):
   conv = fr.get('conv')
   if conv is not None and np.isfinite(conv) and conv < inst['tol']:
     gamma = float(inst['gamma'])
+    if not lam_from_frame or 'pos_bhat' not in fr or 'neg_bhat' not in fr:
+      return None                    # the stopping state of the solver is not observable under its known names: clause not evaluated
     lold = np.asarray(fr.get('lambdaold', lam), dtype=float)
     normsum = np.linalg.norm(lam) + np.linalg.norm(lold)
     b0 = np.where(sgn > 0, u, l)
